@@ -28,6 +28,11 @@ RULES = {
                     'release is taken only when the arriving element does not belong to the slot\'s owner',
     'RETAIN-ONCE': 'node-level _retain_refs uses the default n and happens at most once per update path',
     'EMIT-BALANCE': 'Stream._emit retains len(downstreams) up front and releases exactly once per visited downstream',
+    'REL-WHILE-BUFFERED': 'update() does not release the incoming metadata on a path on which it stored that metadata into one of '
+                          'the node\'s containers and has not taken it out again',
+    'DROP-TABLE': 'a value taken out of one of the node\'s containers is released only after it was emitted, except at the sites '
+                  'listed in DROP_OK (an input is abandoned / a duplicate is superseded): nothing else may signal completion for '
+                  'an element that was never delivered',
     'REMOVE-RELEASES': 'every removal from a metadata container (pop/popleft/get/swap/clear/overwrite) releases what it removed',
     'REL-SHAPE': 'what is handed to _emit(metadata=), _retain_refs and _release_refs is a flat list of dicts',
     'EMITTED-STILL-HELD': 'a single-slot holder gives up its hold once it has emitted the slot (unless a combining node)',
@@ -216,6 +221,26 @@ def check_class(ctx, R, cls, rules=None):
                     'self.%s[<slot of the arriving element>] is released although the element may belong to the lossless '
                     'upstream, whose slot content was already released right after its emission: released twice (count below '
                     'zero, or a still buffered element completed early)' % fld, e.line, evs)
+            # ------------------------------------------------------------ REL-WHILE-BUFFERED
+            # the incoming element was put into one of the node's containers on this path and is still there: releasing *its*
+            # metadata (instead of what it replaced / nothing) completes an element that is still waiting in the buffer
+            if is_update:
+                for i, e in enumerate(evs):
+                    if e.kind != 'REL' or not has(e.b, 'md') or not isinstance((e.x or {}).get('arg'), ast.Name):
+                        continue
+                    stores = [j for j in range(i) if evs[j].kind == 'ST' and has(evs[j].b, 'md') and evs[j].c in ('setitem', 'append', 'extend', 'assign')
+                              and evs[j].a in mdf]
+                    if not stores:
+                        rep('REL-WHILE-BUFFERED', 'metadata', True)
+                        continue
+                    j = stores[-1]
+                    gone = any(x.kind == 'TK' and x.a == evs[j].a for x in evs[j + 1:i]) or \
+                        any(x.kind == 'ST' and x.a == evs[j].a and x.c in ('reset',) for x in evs[j + 1:i]) or \
+                        any(x.kind == 'EM' for x in evs[j + 1:i])
+                    rep('REL-WHILE-BUFFERED', 'metadata', gone,
+                        'the incoming metadata was stored into self.%s at line %d and is released at line %d while it is still '
+                        'there: the element is reported complete while it waits in the buffer (and is released again when it '
+                        'leaves)' % (evs[j].a, evs[j].line, e.line), e.line, evs)
             # ------------------------------------------------------------ NO-DOUBLE-REL
             rels = [(i, e) for i, e in enumerate(evs) if e.kind == 'REL']
             for a in range(len(rels)):
@@ -566,3 +591,49 @@ def check_in_flight(ctx, R, cls):
                              ctx.where(fn, e.line), fmt_path(evs) if not gives_up else None, 1)
                     else:
                         R.table('COMBINING', sorted(COMBINING))
+
+
+# ----------------------------------------------------------------------------- DROP-TABLE
+# (class, method) -> why releasing a buffered element that was never emitted is what the node is for at that site
+DROP_OK = {
+    ('zip', '_remove_upstream'): 'the input is disconnected: what it had buffered can never be paired any more',
+    ('combine_latest', '_remove_upstream'): 'the input is disconnected: its latest value leaves the node',
+    ('partition_unique', 'update'): 'keep="last": the buffered duplicate is superseded by the arriving element',
+    ('timed_window_unique', 'update'): 'keep="last": the buffered duplicate is superseded by the arriving element',
+}
+
+
+def check_drop_table(ctx, R, classes):
+    """who-may-drop rule, on event paths: a release whose value carries a take tag (it came out of a container of the node)
+    and that no emission of that value / of that container's content precedes is a *drop*.  Drops are allowed only at the sites
+    of DROP_OK; a path on which the element's processing raised is not a drop (NO-REL-ON-FAIL judges those)."""
+    R.table('DROP_OK', {'%s.%s' % k: v for k, v in DROP_OK.items()})
+    for cls in classes:
+        for mname, fn in ctx.entry_methods(cls):
+            if mname in ('__init__', '__str__'):
+                continue
+            paths = ctx.paths(fn, cls)
+            drop, n = None, 0
+            for st, status in paths:
+                evs = st.events
+                for i, e in enumerate(evs):
+                    if e.kind != 'REL' or not e.b or isinstance(e.b, (bool, str)):
+                        continue
+                    takes = {t for t in e.b if t.startswith('take:')}
+                    if not takes:
+                        continue
+                    n += 1
+                    fields = {'field:' + t[5:].split('@')[0] for t in takes}
+                    emitted = any(x.kind == 'EM' and x.b and not isinstance(x.b, (bool, str)) and ((takes | fields) & set(x.b))
+                                  for x in evs[:i])
+                    failed = any(x.kind == 'EXC' for x in evs[:i])
+                    if not emitted and not failed and drop is None:
+                        drop = (e, evs)
+            if n == 0:
+                continue
+            allowed = (cls.name, mname) in DROP_OK
+            R.ob('DROP-TABLE', ctx.construct(fn), 'drops', drop is None or allowed,
+                 '%s.%s releases an element it took out of a buffer without ever having emitted it (line %d): the completion '
+                 'callback fires for data that was dropped, not delivered (not one of the sites listed in DROP_OK)'
+                 % (cls.name, mname, drop[0].line if drop else 0), ctx.where(fn, drop[0].line) if drop else None,
+                 fmt_path(drop[1]) if drop and not allowed else None, n)
